@@ -200,6 +200,19 @@ func (c *e2eCtx) trackAndJudge(s *scenario, decoys bool, r *rand.Rand) {
 	if len(in.BadBlocks) > 0 {
 		c.violate("C02", "tracking call not enclosed in a well-formed marker block at "+strings.Join(in.BadBlocks, ", "), rp(nil))
 	}
+	// C09: a Go file whose content is the same in both revisions has no changed line and receives
+	// no tracking point (independent of the diff stage; base INIT treats every line as new)
+	if s.cfg.Old != "INIT" {
+		for _, path := range sortedKeys(s.newTree) {
+			if !strings.HasSuffix(path, ".go") || s.oldTree[path] != s.newTree[path] {
+				continue
+			}
+			if n := strings.Count(after[path], "// +goat:generate"); n > 0 {
+				c.violate("C09,C04", fmt.Sprintf("%s is identical in the old and the new revision but received %d tracking blocks", path, n), rp(map[string]any{"file": path}))
+				break
+			}
+		}
+	}
 	// C03 / C09: the blocks are where the model puts them for the real diff
 	c.judgeMarks(s, pm, after, rp)
 	// C05
